@@ -81,7 +81,7 @@ func (u *UniAttribute) Decode(is *codec.Reader) error {
 		ty   byte
 		err  error
 	)
-	_, err = is.SkipTo(codec.MAP, 0, false)
+	_, err = is.SkipTo(codec.MAP, 0, true)
 	if err != nil {
 		return err
 	}
